@@ -64,74 +64,96 @@ Fixpoint subs_step (fx : fixes) (has_gop : bool) (m : mmsg) (l : list sub) : res
   end.
 
 (* the "record stat" block *)
+Definition st_audio (fx : fixes) (g : grp_st) (m : mmsg) : res bool :=
+  if negb (g_acodec g) && (mm_type m =? t_audio) then
+    let* c := audio_codec_id m in
+    if c =? 10 then is_aac_seq_header fx m
+    else Ok ((c =? 8) || (c =? 7) || (c =? 13))
+  else Ok (g_acodec g).
+
+Definition st_video (fx : fixes) (g : grp_st) (m : mmsg) : res bool :=
+  if negb (g_vcodec g) then
+    let* a := is_avc_key_seq_header fx m in
+    let* h := is_hevc_key_seq_header fx m in
+    Ok (a || h)
+  else Ok true.
+
+Definition st_dims_avc (fx : fixes) (rf : rec_fns) (sf : sps_fns) (g : grp_st) (m : mmsg) : res (N * N) :=
+  let* a := is_avc_key_seq_header fx m in
+  if a then
+    match rf_avc_parse rf (mm_pay m) with
+    | Panic s => Panic s
+    | Err _ => Ok (g_w g, g_h g)
+    | Ok (sps, _) =>
+      let* d := sf_avc_dims sf sps in
+      Ok (match d with Some (w, h) => (w, h) | None => (g_w g, g_h g) end)
+    end
+  else Ok (g_w g, g_h g).
+
+Definition st_dims_hevc (fx : fixes) (rf : rec_fns) (sf : sps_fns) (m : mmsg) (wh1 : N * N) : res (N * N) :=
+  let* h := is_hevc_key_seq_header fx m in
+  if h then
+    let* enh := is_enhanced m in
+    match (if enh then rf_hevc_parse_enh rf (mm_pay m) else rf_hevc_parse rf (mm_pay m)) with
+    | Panic s => Panic s
+    | Err _ => Ok wh1
+    | Ok (_, sps, _) =>
+      let* d := sf_hevc_dims sf sps in
+      Ok (match d with Some (w, h) => (w, h) | None => wh1 end)
+    end
+  else Ok wh1.
+
+Definition st_dims (fx : fixes) (rf : rec_fns) (sf : sps_fns) (g : grp_st) (m : mmsg) : res (N * N) :=
+  if (g_w g =? 0) || (g_h g =? 0) then
+    let* wh1 := st_dims_avc fx rf sf g m in st_dims_hevc fx rf sf m wh1
+  else Ok (g_w g, g_h g).
+
 Definition stat_step (fx : fixes) (rf : rec_fns) (sf : sps_fns) (g : grp_st) (m : mmsg) : res (bool * bool * N * N) :=
-  let p := mm_pay m in
-  let* ac :=
-    (if negb (g_acodec g) && (mm_type m =? t_audio) then
-       let* c := audio_codec_id m in
-       if c =? 10 then is_aac_seq_header fx m
-       else Ok ((c =? 8) || (c =? 7) || (c =? 13))
-     else Ok (g_acodec g)) in
-  let* vc :=
-    (if negb (g_vcodec g) then
-       let* a := is_avc_key_seq_header fx m in
-       let* h := is_hevc_key_seq_header fx m in
-       Ok (a || h)
-     else Ok true) in
-  let* wh :=
-    (if (g_w g =? 0) || (g_h g =? 0) then
-       let* a := is_avc_key_seq_header fx m in
-       let* wh1 :=
-         (if a then
-            match rf_avc_parse rf p with
-            | Panic s => Panic s
-            | Err _ => Ok (g_w g, g_h g)
-            | Ok (sps, _) =>
-              let* d := sf_avc_dims sf sps in
-              Ok (match d with Some (w, h) => (w, h) | None => (g_w g, g_h g) end)
-            end
-          else Ok (g_w g, g_h g)) in
-       let* h := is_hevc_key_seq_header fx m in
-       if h then
-         let* enh := is_enhanced m in
-         match (if enh then rf_hevc_parse_enh rf p else rf_hevc_parse rf p) with
-         | Panic s => Panic s
-         | Err _ => Ok wh1
-         | Ok (_, sps, _) =>
-           let* d := sf_hevc_dims sf sps in
-           Ok (match d with Some (w, h) => (w, h) | None => wh1 end)
-         end
-       else Ok wh1
-     else Ok (g_w g, g_h g)) in
+  let* ac := st_audio fx g m in
+  let* vc := st_video fx g m in
+  let* wh := st_dims fx rf sf g m in
   Ok (ac, vc, fst wh, snd wh).
 
 Definition msg_cost (m : mmsg) : N := 1 + lenN (mm_pay m).
 Definition msgs_cost (l : list mmsg) : N := fold_right (fun m acc => msg_cost m + acc) 0 l.
 
-(* Group.broadcastByRtmpMsg; returns the new state and the work done, counted in
-   (message visits + payload bytes visited): every function called on a message
-   is linear in that message's length, and a message is visited again only when
-   a probe queue that holds it is drained *)
+(* the pieces of Group.broadcastByRtmpMsg, in call order *)
+Definition bc_meta (acfg : amf_cfg) (m : mmsg) : res unit :=
+  if mm_type m =? t_meta then
+    match fst (parse_metadata acfg (mm_pay m)) with Panic s => Panic s | _ => Ok tt end
+  else Ok tt.
+Definition bc_ts (fx : fixes) (cf : codec_fns) (c : grp_cfg) (g : grp_st) (m : mmsg) : res ts_st :=
+  if gc_ts c then let* (t, _) := ts_feed fx cf (g_ts g) m in Ok t else Ok (g_ts g).
+Definition bc_rtsp (fx : fixes) (rf : rec_fns) (acfg : amf_cfg) (c : grp_cfg) (g : grp_st) (m : mmsg) : res rtsp_st :=
+  if gc_rtsp c then let* (r, _) := rtsp_feed fx rf acfg (gc_add c) (g_rtsp g) m in Ok r else Ok (g_rtsp g).
+Definition bc_rgop (fx : fixes) (c : grp_cfg) (g : grp_st) (m : mmsg) : res bool :=
+  if gc_rtmp c then gop_feed fx (gc_rtmp_gop c) (g_rtmp_hasgop g) m else Ok (g_rtmp_hasgop g).
+Definition bc_fgop (fx : fixes) (c : grp_cfg) (g : grp_st) (m : mmsg) : res bool :=
+  if gc_flv c then gop_feed fx (gc_flv_gop c) (g_flv_hasgop g) m else Ok (g_flv_hasgop g).
+
+(* work done for one message, counted in (message visits + payload bytes visited):
+   every function called on a message is linear in that message's length, and a
+   message is visited again only when a probe queue that holds it is drained *)
+Definition bc_cost (g : grp_st) (m : mmsg) (ts' : ts_st) (rtsp' : rtsp_st) : N :=
+  let drained_ts := if negb (ts_done (g_ts g)) && ts_done ts' then msgs_cost (ts_data (g_ts g)) else 0 in
+  let drained_rtsp := if negb (rs_done (g_rtsp g)) && rs_done rtsp' then msgs_cost (rs_cache (g_rtsp g)) else 0 in
+  (8 + lenN (g_rtmp_subs g) + lenN (g_flv_subs g)) * msg_cost m + drained_ts + drained_rtsp.
+
+(* Group.broadcastByRtmpMsg: the new state and the work done *)
 Definition broadcast (fx : fixes) (cf : codec_fns) (rf : rec_fns) (sf : sps_fns) (acfg : amf_cfg) (c : grp_cfg)
            (g : grp_st) (m : mmsg) : res (grp_st * N) :=
-  let p := mm_pay m in
-  let* _ := (if mm_type m =? t_meta then
-               match fst (parse_metadata acfg p) with Panic s => Panic s | _ => Ok tt end
-             else Ok tt) in
-  match p with
+  let* _ := bc_meta acfg m in
+  match mm_pay m with
   | [] => Ok (g, 1)
   | _ :: _ =>
-    let* (ts', _) := (if gc_ts c then ts_feed fx cf (g_ts g) m else Ok (g_ts g, [])) in
-    let* (rtsp', _) := (if gc_rtsp c then rtsp_feed fx rf acfg (gc_add c) (g_rtsp g) m else Ok (g_rtsp g, [])) in
+    let* ts' := bc_ts fx cf c g m in
+    let* rtsp' := bc_rtsp fx rf acfg c g m in
     let* rsubs := subs_step fx (g_rtmp_hasgop g) m (g_rtmp_subs g) in
     let* fsubs := subs_step fx (g_flv_hasgop g) m (g_flv_subs g) in
-    let* rgop := (if gc_rtmp c then gop_feed fx (gc_rtmp_gop c) (g_rtmp_hasgop g) m else Ok (g_rtmp_hasgop g)) in
-    let* fgop := (if gc_flv c then gop_feed fx (gc_flv_gop c) (g_flv_hasgop g) m else Ok (g_flv_hasgop g)) in
+    let* rgop := bc_rgop fx c g m in
+    let* fgop := bc_fgop fx c g m in
     let* (ac, vc, w, h) := stat_step fx rf sf g m in
-    let drained_ts := if negb (ts_done (g_ts g)) && ts_done ts' then msgs_cost (ts_data (g_ts g)) else 0 in
-    let drained_rtsp := if negb (rs_done (g_rtsp g)) && rs_done rtsp' then msgs_cost (rs_cache (g_rtsp g)) else 0 in
-    Ok (mk_grp ts' rtsp' (g_dummy g) rsubs fsubs rgop fgop ac vc w h,
-        (8 + lenN (g_rtmp_subs g) + lenN (g_flv_subs g)) * msg_cost m + drained_ts + drained_rtsp)
+    Ok (mk_grp ts' rtsp' (g_dummy g) rsubs fsubs rgop fgop ac vc w h, bc_cost g m ts' rtsp')
   end.
 
 Fixpoint broadcast_all (fx : fixes) (cf : codec_fns) (rf : rec_fns) (sf : sps_fns) (acfg : amf_cfg) (c : grp_cfg)
